@@ -961,9 +961,14 @@ class WorkflowConductor(object):
             # is completed, get the task result and context which is required to evaluate the
             # the condition if a retry for the task is required.
             # If there is a failure while evaluating the retry condition, fail the workflow.
+            # A retry is only evaluated for the report that completes the task. A late or duplicate
+            # report for a task that is already completed, and whose transitions are already
+            # evaluated, does not reopen the task.
             try:
-                retry_task = self.get_workflow_status() in statuses.ACTIVE_STATUSES and (
-                    self._evaluate_task_retry(task_state_entry, current_ctx)
+                retry_task = (
+                    new_task_status != old_task_status
+                    and self.get_workflow_status() in statuses.ACTIVE_STATUSES
+                    and self._evaluate_task_retry(task_state_entry, current_ctx)
                 )
             except Exception as e:
                 self.log_error(e, task_id=task_id, route=route)
